@@ -630,6 +630,11 @@ pub open spec fn lines_post<'a>(a: Seq<Seq<Node<'a>>>, b: Seq<Seq<Node<'a>>>, re
     res is Ok ==> st_extends(a, b) && res->Ok_0 == spec_all(kid_statuses(st_new(a, b)))
 }
 
+// C02, or-line: a Disjunction node carries the some-aggregate of the alternatives recorded under it
+pub open spec fn line_node_ok(n: Node) -> bool {
+    n.rec is Disjunction ==> (n.kids.len() == 0 || rec_status(n.rec) == spec_some(kid_statuses(n.kids)))
+}
+
 pub broadcast proof fn lemma_open_close<'a>(s0: Seq<Seq<Node<'a>>>, s2: Seq<Seq<Node<'a>>>, rec: RecordType<'a>)
     requires s0.len() >= 1, #[trigger] st_extends(s0.push(Seq::empty()), s2),
     ensures
@@ -839,6 +844,62 @@ pub proof fn lemma_count_push(s: Seq<Status>, y: Status, x: Status)
     ensures count(s.push(y), x) == count(s, x) + if y == x { 1nat } else { 0nat }
 {
     assert(s.push(y).drop_last() =~= s);
+}
+
+// ---- helpers of U-cnf-v (explicitly called, not broadcast) ----
+pub proof fn lemma_extends_same<'a>(a: Seq<Seq<Node<'a>>>, b: Seq<Seq<Node<'a>>>)
+    requires st_extends(a, b), b.last().len() == a.last().len(),
+    ensures a == b,
+{
+    assert(b.last() =~= b.last().subrange(0, a.last().len() as int));
+    assert(a =~= a.drop_last().push(a.last()));
+    assert(b =~= b.drop_last().push(b.last()));
+}
+
+pub proof fn lemma_extends_one<'a>(a: Seq<Seq<Node<'a>>>, b: Seq<Seq<Node<'a>>>)
+    requires st_extends(a, b), b.last().len() == a.last().len() + 1,
+    ensures st_one_more(a, b),
+{
+    assert(b.last() =~= a.last().push(b.last().last())) by {
+        assert(b.last().subrange(0, a.last().len() as int) =~= a.last());
+    }
+    assert(b =~= b.drop_last().push(b.last()));
+}
+
+// one more closed node at the level of `s_line`: what it does to the nodes added since s0
+pub proof fn lemma_line_closed<'a>(s0: Seq<Seq<Node<'a>>>, s_line: Seq<Seq<Node<'a>>>, c: Seq<Seq<Node<'a>>>)
+    requires st_extends(s0, s_line), st_one_more(s_line, c),
+    ensures
+        st_extends(s0, c),
+        st_new(s0, c) == st_new(s0, s_line).push(st_last(c)),
+        kid_statuses(st_new(s0, c)) == kid_statuses(st_new(s0, s_line)).push(rec_status(st_last(c).rec)),
+        count(kid_statuses(st_new(s0, c)), Status::PASS) == count(kid_statuses(st_new(s0, s_line)), Status::PASS) + if rec_status(st_last(c).rec) == Status::PASS { 1nat } else { 0nat },
+        count(kid_statuses(st_new(s0, c)), Status::FAIL) == count(kid_statuses(st_new(s0, s_line)), Status::FAIL) + if rec_status(st_last(c).rec) == Status::FAIL { 1nat } else { 0nat },
+        (forall|i: int| 0 <= i < st_new(s0, s_line).len() ==> !is_condition(#[trigger] st_new(s0, s_line)[i].rec)) && !is_condition(st_last(c).rec)
+            ==> (forall|i: int| 0 <= i < st_new(s0, c).len() ==> !is_condition(#[trigger] st_new(s0, c)[i].rec)),
+        (forall|i: int| 0 <= i < st_new(s0, s_line).len() ==> line_node_ok(#[trigger] st_new(s0, s_line)[i])) && line_node_ok(st_last(c))
+            ==> (forall|i: int| 0 <= i < st_new(s0, c).len() ==> line_node_ok(#[trigger] st_new(s0, c)[i])),
+{
+    lemma_new_push(s0, s_line, c);
+    lemma_count_push(kid_statuses(st_new(s0, s_line)), rec_status(st_last(c).rec), Status::PASS);
+    lemma_count_push(kid_statuses(st_new(s0, s_line)), rec_status(st_last(c).rec), Status::FAIL);
+    assert(st_new(s0, c) =~= st_new(s0, s_line).push(st_last(c)));
+    assert(kid_statuses(st_new(s0, c)) =~= kid_statuses(st_new(s0, s_line)).push(rec_status(st_last(c).rec)));
+}
+
+// a Disjunction node over alternatives none of which passed: FAIL iff one failed, else SKIP; with a passing last one: PASS
+pub proof fn lemma_some_no_pass(ks: Seq<Status>)
+    requires forall|k: int| 0 <= k < ks.len() ==> ks[k] != Status::PASS,
+    ensures spec_some(ks) == (if count(ks, Status::FAIL) > 0 { Status::FAIL } else { Status::SKIP }),
+{
+    lemma_count_has(ks, Status::FAIL);
+}
+
+pub proof fn lemma_some_last_pass(ks: Seq<Status>)
+    requires ks.len() > 0, ks.last() == Status::PASS,
+    ensures spec_some(ks) == Status::PASS,
+{
+    assert(ks[ks.len() - 1] == Status::PASS);
 }
 
 // ---------------------------------------------------------------------------------------------
